@@ -214,3 +214,74 @@ def run_file_traced(text, name="file.c", debug=0, added=None):
         h = e.highlights[0] if e.highlights else None
         res["diags"].append((e.level, e.name, h.lineno if h else None, h.column if h else None, e.text))
     return res
+
+
+WS = ("SPACE", "TAB")
+WSNL = ("SPACE", "TAB", "NEWLINE")
+
+
+def engine_trace(text, name="file.c"):
+    """statement events with the token-level facts Engine.tla needs, recorded at Context.pop_tokens
+    (after Context.update), plus the scope chain the implementation holds after each statement"""
+    from norminette.context import Context
+    from norminette.registry import Registry
+    from norminette.exceptions import CParsingError
+    global _REG
+    try:
+        reg = _REG
+    except NameError:
+        reg = _REG = Registry()
+    f = File(name, text)
+    out = io.StringIO()
+    res = dict(events=[], ntokens=0, complete=False, fatal=None, exc=None)
+    events = res["events"]
+    state = dict(hist=0, before=None)
+    try:
+        with contextlib.redirect_stdout(out), watchdog(6.0):
+            tokens = list(Lexer(f))
+            res["ntokens"] = len(tokens)
+            ctx = Context(f, tokens, 0, None)
+            orig = ctx.pop_tokens
+
+            def chain(sc):
+                c = []
+                while sc is not None:
+                    c.append(dict(name=sc.name, multi=bool(sc.multiline)))
+                    sc = sc.parent
+                return c[::-1]
+            state["before"] = chain(ctx.scope)
+
+            def pop_tokens(stop):
+                toks = ctx.tokens
+                matched = len(ctx.history) != state["hist"]
+                state["hist"] = len(ctx.history)
+                if matched:
+                    st = toks[:stop]
+                    sig = [t for t in st if t.type not in WSNL]
+                    rest = [t for t in toks[stop:stop + 12] if t.type not in WSNL]
+                    rule = ctx.history[-1].name
+                    last = sig[-1].type if sig else ""
+                    first = sig[0].type if sig else ""
+                    before = state["before"]
+                    events.append(dict(
+                        rule=rule, n=stop, nl=sum(1 for t in st if t.type == "NEWLINE"),
+                        nextLBrace=bool(rest and rest[0].type == "LBRACE"),
+                        opensControl=(rule == "IsControlStatement" and last != "SEMI_COLON"),
+                        opensType=(rule == "IsUserDefinedType" and last != "SEMI_COLON" and bool(st) and st[-1].type == "NEWLINE"),
+                        isEnum=any(t.type == "ENUM" for t in st),
+                        leakedOuter=(rule not in ("IsBlockEnd",) and first == "RBRACE" and bool(before)
+                                     and before[-1]["name"] in ("UserDefinedType", "UserDefinedEnum")),
+                        after=chain(ctx.scope), lines=int(ctx.scope.lines)))
+                else:
+                    events.append(dict(rule="Skip", n=stop, nl=0, nextLBrace=False, opensControl=False, opensType=False, isEnum=False,
+                                       leakedOuter=False, after=chain(ctx.scope), lines=int(ctx.scope.lines)))
+                state["before"] = chain(ctx.scope)
+                return orig(stop)
+            ctx.pop_tokens = pop_tokens
+            reg.run(ctx)
+            res["complete"] = True
+    except CParsingError as e:
+        res["fatal"] = e.msg
+    except BaseException as e:  # noqa
+        res["exc"] = exc_site(e)
+    return res
